@@ -34,6 +34,17 @@ class MList(list):
     """A list of a scenario that the interpreted code may change in place (identity and aliasing are kept)."""
 
 
+class EnumView:
+    """enumerate(<shared list>): read element by element while the loop runs, as Python does (a loop that edits the list it walks over
+    sees its own edits)."""
+
+    def __init__(self, lst, start=0):
+        self.lst, self.start = lst, start
+
+    def __repr__(self):
+        return "<enumerate of %r>" % (self.lst,)
+
+
 class MDict(dict):
     """A dict of a scenario that the interpreted code may change in place."""
 
@@ -445,6 +456,28 @@ class Interp:
     def loop_for(self, s, st):
         out = []
         for itv, s0 in self._vals(s.iter, st, out, s):
+            if isinstance(itv, Const) and isinstance(itv.v, (MList, EnumView)):
+                # a shared (mutable) list: elements are fetched one by one, so that edits made by the body are seen
+                lst = itv.v if isinstance(itv.v, MList) else itv.v.lst
+                states, i = [s0], 0
+                while states and i < len(lst) and i < 200:
+                    item = Const(lst[i]) if isinstance(itv.v, MList) else Const((itv.v.start + i, lst[i]))
+                    nxt = []
+                    for cur in states:
+                        c2 = cur.copy()
+                        self.assign(s.target, item, c2)
+                        for r in self.block(s.body, c2):
+                            if r[0] in ("next", "continue"):
+                                nxt.append(r[2])
+                            elif r[0] == "break":
+                                out.append(("next", None, r[2], None))
+                            else:
+                                out.append(r)
+                    states = nxt
+                    i += 1
+                for cur in states:
+                    out.extend(self.block(s.orelse, cur) if s.orelse else [("next", None, cur, None)])
+                continue
             if isinstance(itv, Const) and isinstance(itv.v, (list, tuple, str, bytes, dict, set, frozenset)):
                 seq = [Const(x) for x in itv.v]
                 exact = True
@@ -994,6 +1027,9 @@ class Interp:
                 return [(Const(isinstance(args[0].v, args[1].v)), st)]
             if f.id == "type" and len(args) == 1 and isinstance(args[0], Const):
                 return [(Const(type(args[0].v)), st)]
+            if f.id == "enumerate" and 1 <= len(args) <= 2 and isinstance(args[0], Const) and isinstance(args[0].v, MList) \
+                    and all(isinstance(a, Const) for a in args) and not kw:
+                return [(Const(EnumView(args[0].v, args[1].v if len(args) == 2 else 0)), st)]
             if f.id == "enumerate" and 1 <= len(args) <= 2 and isinstance(args[0], Const) and isinstance(args[0].v, (list, tuple)) \
                     and all(isinstance(a, Const) for a in args) and not kw:
                 start = args[1].v if len(args) == 2 else 0
